@@ -551,12 +551,12 @@ where
         if let Some(tx) = response_tx.take() {
             if let Err(response) = tx.send(response) {
                 debug!(response = ?response, "HTTP request terminated before the response was provided.");
-                StepResult::done(())
-            } else {
-                StepResult::Complete {
-                    modified_item,
-                    result: (),
-                }
+            }
+            // The handler has run to completion whether or not the client is still waiting for the response: a lane
+            // that it modified in its final step must still be reported as modified.
+            StepResult::Complete {
+                modified_item,
+                result: (),
             }
         } else {
             StepResult::after_done()
@@ -838,12 +838,12 @@ where
         if let Some(tx) = response_tx.take() {
             if let Err(response) = tx.send(response) {
                 debug!(response = ?response, "HTTP request terminated before the response was provided.");
-                StepResult::done(())
-            } else {
-                StepResult::Complete {
-                    modified_item,
-                    result: (),
-                }
+            }
+            // The handler has run to completion whether or not the client is still waiting for the response: a lane
+            // that it modified in its final step must still be reported as modified.
+            StepResult::Complete {
+                modified_item,
+                result: (),
             }
         } else {
             StepResult::after_done()
